@@ -120,9 +120,9 @@ def gen(seed, tier):
             tasks = [['d', 2, [rng.choice([['a', 'a'], ['a', 'b'], ['a', 'c']]), ['v', 0]]] for _ in range(ntasks)]
         steps = [[rng.randrange(ntasks), rng.choice(['next'] * 8 + ['close', 'drop'])] for _ in range(rng.randrange(4, 40))]
         return {'mode': mode, 'world': world, 'dynfacts': dyn, 'tasks': tasks, 'steps': steps}
-    ne = rng.choice((2, 2, 3))
+    ne = rng.choice((2, 2, 3) if tier != 'thorough' else (2, 3, 3, 4))
     ng_heavy = rng.random() < 0.3
-    hs = [gen_history(rng, rng.randrange(5, 26), ng_heavy) for _ in range(ne)]
+    hs = [gen_history(rng, rng.randrange(5, 26 * (2 if tier == 'thorough' else 1)), ng_heavy) for _ in range(ne)]
     return {'mode': mode, 'histories': hs, 'sched_seed': rng.randrange(1 << 30), 'switch_p': rng.choice((0.005, 0.02, 0.05, 0.2)), 'schedule': None}
 
 
